@@ -124,8 +124,19 @@ func VF_C13_L3_LockWindow() {
 	}
 	e := c.eventSubs["test.model"]
 	zzvf.Reach("lw-loaded")
+	// prequeue: a further subscriber of the first query subscribes right
+	// before the query event, so that the event is not the first entry the
+	// worker handles in that pass
+	var extra *vfLWSub
+	if zzvf.ParamOr("prequeue", 0) == 1 {
+		extra = &vfLWSub{query: names[0]}
+		c.Subscribe(extra, nil)
+	}
 	m.subs["event.test.model"]("event.test.model.query", []byte(`{"subject":"_Q1_"}`), nil)
 	idle()
+	if extra != nil {
+		zzvf.Assert(extra.loaded == 1 && extra.rs == subs[0].rs, "late-subscriber-served-from-the-cached-query-resource")
+	}
 	zzvf.Assert(len(m.pending()) == n, "one-query-request-per-query-resource")
 	customs := zzvf.ParamOr("customs", 1) // query events arriving during the lock
 	sentCustom := 0
@@ -244,7 +255,15 @@ func VF_C13_L3_LockWindow() {
 	locked, queued := e.locks != nil, len(e.queue)
 	e.mu.Unlock()
 	zzvf.Assert(!locked && queued == 0, "processing-resumes-after-all-query-requests")
+	if extra != nil {
+		zzvf.Assert(extra.loaded == 1, "every-subscriber-loaded-exactly-once")
+		e.mu.Lock()
+		cnt := e.count
+		e.mu.Unlock()
+		zzvf.Assert(cnt == int64(n+1), "use-count-equals-subscribers")
+	}
 	for i, s := range subs {
+		zzvf.Assert(s.loaded == 1, "every-subscriber-loaded-exactly-once")
 		changes, custom := 0, 0
 		for _, ev := range s.events {
 			switch ev.Event {
